@@ -495,15 +495,22 @@ def r15_10(ctx):
             if names and names[-1] in ("index", "len"):
                 moved.add(names[-1])
     ctx.ob("R15.10", "cursors", moved == {"index", "len"}, steps[0].loc() if steps else "", f"next / next_back advance the cursor fields {sorted(moved)}", nontrivial=False)
-    for f in views:
+    def cut_fields(f, depth=0):
+        """cursor fields the returned slice depends on, in f or in the private helper of the iterator that builds it"""
         sl, leaves = backward_slice(f, [0])
         fields = set()
-        for g in [f]:
-            for b, i, st in g.assigns():
-                for pl in rv_places(st["rv"]):
-                    names = [e[2] for e in pl[1] if isinstance(e, list) and e[0] == "."]
-                    if names and names[-1] in ("index", "len") and "IntoIter" in f.locals[pl[0]]["ty"] and st["lhs"][0] in sl:
-                        fields.add(names[-1])
+        for b, i, st in f.assigns():
+            for pl in rv_places(st["rv"]):
+                names = [e[2] for e in pl[1] if isinstance(e, list) and e[0] == "."]
+                if names and names[-1] in ("index", "len") and "IntoIter" in f.locals[pl[0]]["ty"] and st["lhs"][0] in sl:
+                    fields.add(names[-1])
+        if depth < 2:
+            for lf in leaves:
+                if lf[0] == "call" and lf[2]["callee"] in prog.fns and (prog.fns[lf[2]["callee"]].self_adt or "") == adt:
+                    fields |= cut_fields(prog.fns[lf[2]["callee"]], depth + 1)
+        return fields
+    for f in views:
+        fields = cut_fields(f)
         ok = fields >= moved and bool(moved)
         ctx.ob("R15.10", f"view:{f.name}", ok, f.loc(), f"{f.name} is cut by the cursor fields {sorted(fields)}" if ok else
                f"{f.name} does not depend on {sorted(moved - fields)}: after next() it still shows the consumed positions (as null) where Vec's IntoIter shows only what is left")
@@ -602,6 +609,39 @@ def r15_12(ctx):
                         inside, outside = (e[0], e[1]) if pos else (e[1], e[0])
                         if (inside == b or f.dominates(inside, b)) and b not in f.reachable_from(outside, avoid={inside}):
                             guarded = True
+            if not guarded:
+                # the same test on the number of remaining elements: `len - index` (computed here or by a helper of the
+                # iterator) compared with 0
+                def is_remaining(l, depth=0):
+                    d = f.single_def(l) if l is not None else None
+                    if d is None or depth > 4:
+                        return False
+                    if d[0] == "call":
+                        g = prog.fns.get(d[2]["callee"])
+                        if g is not None and adt in (g.self_adt or "") :
+                            for gb, gi, gs in g.assigns():
+                                fnd, lv = _store_arith(g, gs, "Sub")
+                                tags = {[e[2] for e in lf[1][1] if isinstance(e, list) and e[0] == "."][-1] for lf in lv if lf[0] == "place" and lf[1] and [e for e in lf[1][1] if isinstance(e, list) and e[0] == "."]}
+                                if fnd and {"index", "len"} <= tags and (gs["lhs"][0] == 0 or 0 in forward_derived(g, {gs["lhs"][0]})):
+                                    return True
+                        return False
+                    rv2 = d[3]["rv"]
+                    if rv2["k"] == "use" and op_local(rv2["op"]) is not None:
+                        return is_remaining(op_local(rv2["op"]), depth + 1)
+                    fnd, lv = _store_arith(f, d[3], "Sub")
+                    tags = {[e[2] for e in lf[1][1] if isinstance(e, list) and e[0] == "."][-1] for lf in lv if lf[0] == "place" and lf[1] and [e for e in lf[1][1] if isinstance(e, list) and e[0] == "."]}
+                    return fnd and {"index", "len"} <= tags
+                for bb, ii, ss in f.assigns():
+                    rv = ss["rv"]
+                    if rv["k"] == "binop" and rv["op"] in ("Eq", "Ne", "Gt") and f.dominates(bb, b) and 0 in (op_int(rv["a"]), op_int(rv["b"])):
+                        o = rv["a"] if op_int(rv["b"]) == 0 else rv["b"]
+                        if not is_remaining(op_local(o)):
+                            continue
+                        e = bool_switch_edges(f, ss["lhs"][0])
+                        if e:
+                            inside, outside = (e[1], e[0]) if rv["op"] == "Eq" else (e[0], e[1])
+                            if (inside == b or f.dominates(inside, b)) and b not in f.reachable_from(outside, avoid={inside}):
+                                guarded = True
             clamp = False
             if st["rv"]["k"] == "use" and op_local(st["rv"]["op"]) is not None:
                 src = f.src(op_local(st["rv"]["op"]))
